@@ -534,6 +534,91 @@ def im10(ctx: Ctx):
                "the provisional value between the two stores", where(fi, fi.node), sample="each key stored once, with its final value")
 
 
+TEXT_SLOTS = ("_scheme", "_netloc", "_path", "_query", "_fragment")
+
+
+class CacheDeps:
+    """Which of the five text slots the value cached under a key of `URL._cache` depends on, transitively: the slots read by
+    the cached property of that name (or by the method that stores the key: `_cache_netloc`, `__hash__`) and by every other
+    URL accessor / method it reads. Syntax-directed over the class body; a key nobody defines depends on everything."""
+
+    def __init__(self, model: Model):
+        self.model = model
+        self.methods = model.methods("_url", "URL")
+        self._memo = {}
+        self.fillers = {}
+        for name, fi in self.methods.items():
+            for n in ast.walk(fi.node):
+                if isinstance(n, ast.Subscript) and isinstance(n.slice, ast.Constant) and isinstance(n.slice.value, str) and \
+                        isinstance(n.ctx, ast.Store) and self._is_cache(n.value, fi):
+                    self.fillers.setdefault(n.slice.value, set()).add(name)
+                if isinstance(n, ast.Call) and isinstance(n.func, ast.Attribute) and n.func.attr == "update" and self._is_cache(n.func.value, fi):
+                    for kw in n.keywords:
+                        if kw.arg:
+                            self.fillers.setdefault(kw.arg, set()).add(name)
+
+    def _is_cache(self, node, fi):
+        if isinstance(node, ast.Attribute) and node.attr == "_cache" and isinstance(node.value, ast.Name) and node.value.id == "self":
+            return True
+        if isinstance(node, ast.Name):      # c = self._cache
+            for n in ast.walk(fi.node):
+                if isinstance(n, ast.Assign) and any(isinstance(t, ast.Name) and t.id == node.id for t in n.targets) and \
+                        isinstance(n.value, ast.Attribute) and n.value.attr == "_cache":
+                    return True
+        return False
+
+    def universe(self):
+        keys = {n for n, fi in self.methods.items() if fi.memo == "cached_property"}
+        return keys | set(self.fillers)
+
+    def of_method(self, name, active=()):
+        if name in self._memo:
+            return self._memo[name]
+        if name in active or name not in self.methods:
+            return frozenset()
+        fi = self.methods[name]
+        out = set()
+        for n in ast.walk(fi.node):
+            if isinstance(n, ast.Attribute) and isinstance(n.value, ast.Name) and n.value.id == "self":
+                if n.attr in TEXT_SLOTS:
+                    out.add(n.attr)
+                elif n.attr in self.methods and n.attr != name:
+                    out |= self.of_method(n.attr, active + (name,))
+            if isinstance(n, ast.Subscript) and isinstance(n.slice, ast.Constant) and isinstance(n.slice.value, str) and \
+                    isinstance(n.ctx, ast.Load) and self._is_cache(n.value, fi):
+                out |= self.of_key(n.slice.value, active + (name,))
+        res = frozenset(out)
+        if not active:
+            self._memo[name] = res
+        return res
+
+    def of_key(self, key, active=()):
+        out = set()
+        found = False
+        if key in self.methods and self.methods[key].memo == "cached_property":
+            out |= self.of_method(key, active)
+            found = True
+        for m in self.fillers.get(key, ()):
+            if m != key:
+                out |= self.of_method(m, active)
+                found = True
+        return frozenset(out) if found else frozenset(TEXT_SLOTS)
+
+
+def _slots_of_target(model, state, obj):
+    """{slot: term} of the object whose cache is being written, when it is a constructor call or an object created here."""
+    view = fresh_view(model, state, obj)
+    if view is not None:
+        return {k: v for k, v in view.items() if k in TEXT_SLOTS}
+    if obj[0] == "call" and obj[1][0] == "global" and obj[1][2] in ("from_parts", "from_parts_uncached") and len(obj[2]) == 5 and not obj[3]:
+        return dict(zip(TEXT_SLOTS, obj[2]))
+    return None
+
+
+def _changed_slots(slots, src):
+    return {s_ for s_ in TEXT_SLOTS if slots.get(s_) != ("attr", src, s_)}
+
+
 def im11(ctx: Ctx):
     """A per-object cache starts empty or is pre-filled from values computed for that very object: nothing derived from
     another object's cache (which may hold its memoised hash and other entries keyed by hand) may flow into it."""
@@ -556,11 +641,59 @@ def im11(ctx: Ctx):
             while root[0] == "mut":
                 root = root[1]
             ok = not foreign and root[0] == "dict"
+            why = ""
+            if not ok and foreign:
+                ok, why = _inherited_ok(model, e, v, foreign)
             ctx.ob(rule, fi.qual, f"{show(e.obj)[:30]}._cache = {show(v)[:60]}", ok,
                    "a URL's cache is initialised from something other than a fresh dict filled in this function"
                    + (" - it is derived from another object's cache, so memoised entries (e.g. the hash stored under a "
-                      "hand-written key) leak into an object they were not computed for" if foreign else ""),
-                   where(fi, e.node), sample="fresh dict")
+                      "hand-written key) leak into an object they were not computed for" if foreign else "") + (": " + why if why else ""),
+                   where(fi, e.node), sample="fresh dict" if not foreign else "only entries whose definition reads unchanged slots are inherited")
+
+
+def _inherited_ok(model, e, v, foreign):
+    """A cache seeded from another URL's cache is accepted when it provably inherits only entries whose definition reads
+    slots that are the same in both objects: `{k: c[k] for k in c if k not in EXCLUDED}` (or `dict(c)` / `c.copy()`) with
+    every key of the cache universe that is not excluded depending on unchanged slots only. -> (ok, reason)"""
+    from ..fold import CannotFold, Folder
+    srcs = {t[1] for t in foreign}
+    if len(srcs) != 1:
+        return False, "entries of several caches are mixed"
+    src = next(iter(srcs))
+    slots = _slots_of_target(model, e.state, e.obj)
+    if slots is None:
+        return False, "the target object's fields are not known here"
+    changed = _changed_slots(slots, src)
+    deps = CacheDeps(model)
+    cache_t = ("attr", src, "_cache")
+    excluded = None
+    if v[0] == "comp" and v[1] == "dict" and len(v[2]) == 1 and v[2][0][0] == "tuple" and len(v[2][0][1]) == 2 and v[3] == (cache_t,):
+        key, val = v[2][0][1]
+        filters = v[4] if len(v) > 4 else ()
+        if key[0] == "elem" and val == ("sub", cache_t, key):
+            excluded = set()
+            for f_ in filters:
+                if f_[0] == "cmp" and f_[1] == "NotIn" and f_[2] == key:
+                    try:
+                        excluded |= set(Folder(model).fold(f_[3]))
+                    except (CannotFold, TypeError):
+                        return False, "the set of excluded keys cannot be folded"
+                elif f_[0] == "unop" and f_[1] == "Not" and f_[2][0] == "cmp" and f_[2][1] == "In" and f_[2][2] == key:
+                    try:
+                        excluded |= set(Folder(model).fold(f_[2][3]))
+                    except (CannotFold, TypeError):
+                        return False, "the set of excluded keys cannot be folded"
+                else:
+                    return False, "unrecognised filter on the inherited keys"
+    elif (v[0] == "call" and v[1] == ("builtin", "dict") and v[2] == (cache_t,) and not v[3]) or \
+            (v[0] == "call" and v[1] == ("attr", cache_t, "copy") and not v[2]):
+        excluded = set()
+    if excluded is None:
+        return False, "not a recognised way of inheriting selected entries"
+    stale = sorted(k for k in deps.universe() - excluded if deps.of_key(k) & changed)
+    if stale:
+        return False, f"inherited although their definition reads a changed slot ({sorted(changed)}): {stale[:6]}"
+    return True, ""
 
 
 def im12(ctx: Ctx):
@@ -618,6 +751,8 @@ def im13(ctx: Ctx):
             if o is None:
                 continue
             ok = (o == ("param", "self") and fi.cls == "URL") or _fresh(model, o) or fi.qual == "_url.URL.__setstate__"
+            if not ok:
+                ok = _handed_over_ok(model, e, o)
             sites.setdefault(id(e.node), [e.node, show(o)[:50], []])[2].append(ok)
         for node, who, oks in sites.values():
             ctx.instance(rule)
@@ -625,3 +760,31 @@ def im13(ctx: Ctx):
                    f"the cache of {who} - not self, not an object created here - is written in place: the object may be shared "
                    "(memoised constructors return one object to every caller) and the entry was not computed from its own fields",
                    where(fi, node), sample="self (lazy fill) or a fresh object")
+
+
+def _handed_over_ok(model, e, owner):
+    """`other._cache[k] = self._cache[k]` / `.setdefault(k, self._cache[k])` for a result built from self's fields: accepted
+    when the definition of every such k reads only slots that the result shares with self (the value is what the result's
+    own lazy fill would compute)."""
+    from ..fold import CannotFold, Folder
+    if e.kind == "mutate" and e.method == "setdefault" and len(e.args) == 2:
+        key, val = e.args
+    elif e.kind == "store_sub":
+        key, val = e.index, e.value
+    else:
+        return False
+    if not (val[0] == "sub" and val[1][0] == "attr" and val[1][2] == "_cache" and val[2] == key):
+        return False
+    src = val[1][1]
+    slots = _slots_of_target(model, e.state, owner)
+    if slots is None:
+        return False
+    changed = _changed_slots(slots, src)
+    try:
+        keys = [key[1]] if key[0] == "const" else (list(Folder(model).fold(key[1])) if key[0] == "elem" else None)
+    except (CannotFold, TypeError):
+        keys = None
+    if not keys or not all(isinstance(k, str) for k in keys):
+        return False
+    deps = CacheDeps(model)
+    return not any(deps.of_key(k) & changed for k in keys)
